@@ -249,3 +249,16 @@ func maskConfig(mask int) []string {
 	}
 	return cfg
 }
+
+// optionForIsCanon tells whether a configuration entry belongs to the canonicalizer
+// (profile names, "canon" and the canonicalizer's own options).
+func optionForIsCanon(name string) (string, bool) {
+	if name == "canon" || strings.HasPrefix(name, "profile:") {
+		return name, true
+	}
+	if name == "default" {
+		return name, false
+	}
+	_, isCanon := optionFor(name)
+	return name, isCanon
+}
